@@ -34,7 +34,11 @@ fn check_tls_cert(peer_der: &[u8], identifier: &str, digest: &[u8]) -> Result<()
 	let mut want = vec![0x04, 0x20];
 	want.extend_from_slice(digest);
 	if acme[0].value != want {
-		return Err(format!("acmeIdentifier {} instead of {}", cu::hexs(&acme[0].value), cu::hexs(&want)));
+		return Err(format!(
+			"acmeIdentifier {} instead of {}",
+			cu::hexs(&acme[0].value),
+			cu::hexs(&want)
+		));
 	}
 	if info.issuer != info.subject {
 		return Err("certificate is not self-signed".into());
@@ -42,34 +46,64 @@ fn check_tls_cert(peer_der: &[u8], identifier: &str, digest: &[u8]) -> Result<()
 	Ok(())
 }
 
-fn handshake<S: Read + Write + std::fmt::Debug>(stream: S, identifier: &str, digest: &[u8]) -> Result<(), String> {
+fn handshake<S: Read + Write + std::fmt::Debug>(
+	stream: S,
+	identifier: &str,
+	digest: &[u8],
+) -> Result<(), String> {
 	let mut b = SslConnector::builder(SslMethod::tls()).map_err(|e| format!("{e}"))?;
 	b.set_verify(SslVerifyMode::NONE);
-	b.set_alpn_protos(b"\x0aacme-tls/1").map_err(|e| format!("{e}"))?;
+	b.set_alpn_protos(b"\x0aacme-tls/1")
+		.map_err(|e| format!("{e}"))?;
 	let conn = b.build();
 	let mut cfg = conn.configure().map_err(|e| format!("{e}"))?;
 	cfg.set_verify_hostname(false);
-	let s = cfg.connect(identifier, stream).map_err(|e| format!("handshake failed: {e}"))?;
+	let s = cfg
+		.connect(identifier, stream)
+		.map_err(|e| format!("handshake failed: {e}"))?;
 	if s.ssl().selected_alpn_protocol() != Some(b"acme-tls/1") {
-		return Err(format!("negotiated ALPN {:?}", s.ssl().selected_alpn_protocol()));
+		return Err(format!(
+			"negotiated ALPN {:?}",
+			s.ssl().selected_alpn_protocol()
+		));
 	}
 	let cert = s.ssl().peer_certificate().ok_or("no peer certificate")?;
-	check_tls_cert(&cert.to_der().map_err(|e| format!("{e}"))?, identifier, digest)
+	check_tls_cert(
+		&cert.to_der().map_err(|e| format!("{e}"))?,
+		identifier,
+		digest,
+	)
 }
 
-pub fn validate(cfg: &Value, authz: &Authz, chall_idx: usize, thumb: &str) -> Result<String, String> {
+pub fn validate(
+	cfg: &Value,
+	authz: &Authz,
+	chall_idx: usize,
+	thumb: &str,
+) -> Result<String, String> {
 	let ch = &authz.challs[chall_idx];
 	let ka = format!("{}.{}", ch.token, thumb);
 	let retry_ms = cfg.get("retry_ms").and_then(|v| v.as_u64()).unwrap_or(3000);
 	match ch.ctype.as_str() {
 		"http-01" => {
-			let root = cfg.get("http_root").and_then(|v| v.as_str()).ok_or("no http_root configured")?;
-			let path = format!("{root}/{}/.well-known/acme-challenge/{}", authz.value, ch.token);
+			let root = cfg
+				.get("http_root")
+				.and_then(|v| v.as_str())
+				.ok_or("no http_root configured")?;
+			let path = format!(
+				"{root}/{}/.well-known/acme-challenge/{}",
+				authz.value, ch.token
+			);
 			let body = std::fs::read_to_string(&path).map_err(|e| format!("{path}: {e}"))?;
 			use std::os::unix::fs::MetadataExt;
-			let mode = std::fs::metadata(&path).map(|m| m.mode() & 0o777).unwrap_or(0);
+			let mode = std::fs::metadata(&path)
+				.map(|m| m.mode() & 0o777)
+				.unwrap_or(0);
 			if body.trim_end_matches(['\r', '\n']) != ka {
-				return Err(format!("{path}: content {:?} is not the key authorization {:?}", body, ka));
+				return Err(format!(
+					"{path}: content {:?} is not the key authorization {:?}",
+					body, ka
+				));
 			}
 			if mode & 0o004 == 0 {
 				return Err(format!("{path}: mode {mode:o} is not world-readable"));
@@ -84,21 +118,29 @@ pub fn validate(cfg: &Value, authz: &Authz, chall_idx: usize, thumb: &str) -> Re
 			let mut last = String::new();
 			loop {
 				let r = if mode == "unix" {
-					let root = tls.get("sock_root").and_then(|v| v.as_str()).unwrap_or("/run");
+					let root = tls
+						.get("sock_root")
+						.and_then(|v| v.as_str())
+						.unwrap_or("/run");
 					let path = format!("{root}/tacd_{}.sock", authz.value);
 					match std::os::unix::net::UnixStream::connect(&path) {
 						Ok(s) => handshake(s, &authz.value, &digest),
 						Err(e) => Err(format!("{path}: {e}")),
 					}
 				} else {
-					let addr = tls.get("addr").and_then(|v| v.as_str()).unwrap_or("127.0.0.1:5001");
+					let addr = tls
+						.get("addr")
+						.and_then(|v| v.as_str())
+						.unwrap_or("127.0.0.1:5001");
 					match std::net::TcpStream::connect(addr) {
 						Ok(s) => handshake(s, &authz.value, &digest),
 						Err(e) => Err(format!("{addr}: {e}")),
 					}
 				};
 				match r {
-					Ok(()) => return Ok("tls-alpn-01 handshake presented the expected certificate".into()),
+					Ok(()) => {
+						return Ok("tls-alpn-01 handshake presented the expected certificate".into())
+					}
 					Err(e) => last = e,
 				}
 				if std::time::Instant::now() >= deadline {
